@@ -336,3 +336,32 @@ def token_mutators(F, res, rid):
                           "reordered outside the documented strategies (longest match, grammar order)" % ", ".join(extra[:3]), fx.loc())
         else:
             res.ok(rid4, "%s/token-mutators" % nm, fx.loc(), "only retain / truncate take tokens out")
+
+
+def layout_span_bracket(F, fn):
+    """Every path of `fn` that runs the layout parser on the content context puts the context's span back afterwards: the
+    argument of the first set_span after the call is the value a span() call returned BEFORE it (same term, same receiver
+    epoch - a span() read after the layout parser is the layout's span). Returns (paths through the layout parser, list of
+    (reason, path end) for the paths that do not)."""
+    n, bad = 0, []
+    for p in Sim(fn, F, max_paths=100000).run():
+        i_lp = idx(p, "parse_with_context")
+        if i_lp is None:
+            continue
+        n += 1
+        ctx = p.events[i_lp][2][1] if len(p.events[i_lp][2]) > 1 else None
+        reads = [e[5] for e in p.events[:i_lp] if e[0] == "call" and len(e) > 5 and mir.call_matches(e[1], "Context::span")
+                 and e[2] and idiom_same(e[2][0], ctx)]
+        sets = [e for e in p.events[i_lp + 1:] if e[0] == "call" and mir.call_matches(e[1], "Context::set_span")
+                and e[2] and idiom_same(e[2][0], ctx)]
+        if not sets:
+            bad.append(("the span the layout parser left in the context is not replaced", p.end))
+        elif not any(sets[0][2][1] == r for r in reads):
+            bad.append(("set_span after the layout parser is given %s, not the span read before the layout parser ran"
+                        % fmt(sets[0][2][1])[:60], p.end))
+    return n, bad
+
+
+def idiom_same(a, b):
+    from . import idiom
+    return a is not None and b is not None and idiom.same(a, b)
